@@ -287,6 +287,8 @@ func c15(c *Ctx) {
 					{"argument", "$.input.name.Equal(" + ref + ")"},
 					{"nested-group", "{$.input.name.Equal(\"a\"),{OR," + ref + ".Equal(\"b\")}}"},
 					// the field spelled in another letter case is no declared field: refused whatever the graph
+					{"at-head", "@." + tgt + "." + leaf},
+					{"at-group", "{AND,$.input.name.Equal(\"a\"),{OR,@." + tgt + "." + leaf + ".Equal(\"b\")}}"},
 					{"head-marked", "$." + tgt + "?." + leaf},
 					{"argument-marked", "$.input.name.Equal($." + tgt + "?." + leaf + ")"},
 					{"case-variant", "$." + strings.ToUpper(tgt[:1]) + tgt[1:] + "." + leaf},
